@@ -50,7 +50,11 @@ func c08Ops(rng *Rng, n int, allowText bool) []Action {
 		case 3:
 			out = append(out, Action{Op: "rawstatus", N: c08Code(rng)})
 		case 4:
-			out = append(out, Action{Op: "header", S: "X-K" + strconv.Itoa(rng.Intn(3)), V: "v"})
+			if rng.Chance(1, 3) {
+				out = append(out, Action{Op: "helper", N: rng.Pick2(200, 201), S: rng.Pick([]string{"json", "jsonbytes", "jsonp", "xml", "html", "htmlstring", "blob", "back", "cookie", "attachment", "inline", "statuscode"})})
+			} else {
+				out = append(out, Action{Op: "header", S: "X-K" + strconv.Itoa(rng.Intn(3)), V: "v"})
+			}
 		case 5, 6, 7:
 			out = append(out, Action{Op: "write", S: c08Payload(rng)})
 		case 8:
@@ -252,7 +256,7 @@ func checkC08(sc *Scenario) *CheckOut {
 		}
 		mounted := false
 		for _, it := range rec.Trace {
-			mounted = mounted || it.K == "mount"
+			mounted = mounted || it.K == "mount" || it.K == "helper" // (response helpers: judged structurally too)
 		}
 		// with a panic hook installed the commit model is continued through the hook's operations;
 		// a request that went through a mounted router is judged structurally (one WriteHeader, before any body byte)
